@@ -1,4 +1,88 @@
-(* TEMPORARY placeholder while the proofs are being written *)
-From Coq Require Import List.
-Theorem C08_tmp : True. Proof. exact I. Qed.
-Print Assumptions C08_tmp.
+(* C08 -- one notification per transition; built / closed waits complete exactly once.
+   Only statements; each closed by `exact <lemma of Proofs/C08*.v>`.
+
+   Objects: Spec/C08.v (operations op, observations nev, what the history alone determines lstate/lstep =
+   legality, the per-operation judgement spec_op, the oracle oracle8, its notification clause notif_check /
+   notifs_exact); Model/StateNotify.v (x_op, xrun: the listener lists, SingleObservers, _closing_deferred
+   callback lists and the unanswered close commands on top of the C07 model).
+
+   FULL STATEMENT (the Spec oracle is its executable form):
+     forall rts ops, legal8 ops = true -> exists tr, xrun rts ops = Some tr /\ oracle8 ops tr = true.
+   It is FALSE of the faithful model (and of the code) on two input classes, the open findings C08-F1
+   (Stream.close() after the stream was reported CLOSED/FAILED never completes) and C08-F2 (Circuit.close()
+   on a circuit reported FAILED: an earlier close() still waiting for its acknowledgement is re-chained and
+   never completes): C08_stream_close_after_gone_refuted, C08_circuit_close_after_failed_refuted.
+   The intended partial theorem
+     C08_oracle_partial : legal8 ops = true -> stream_close_after_gone ops = false ->
+                          circuit_close_after_failed ops = false -> ... oracle8 ops tr = true
+   is NOT proved.  What is proved, for ALL legal histories (any events, snapshots, listener schedules, waits
+   at any position, acknowledgements in any order relative to the events; unbounded):
+     - C08_notifications_exact: the notification clause of the oracle, in full, also inside the finding classes;
+     - C08_waits_once: no wait id is ever reported done twice (and only requested ids are reported);
+     - C08_close_waits_for_event: a close wait never succeeds while its object is still listed in
+       TorState.circuits / TorState.streams (= before Tor reported it CLOSED/FAILED, by C07), whichever of
+       acknowledgement and event comes first;
+   and, for all legal histories WITHOUT close requests (hypothesis no_close, wider than the complement of the
+   finding classes), the whole oracle: C08_oracle_no_close_partial (notifications, when_built succeeds iff
+   BUILT is reached and fails at the CLOSED/FAILED that comes first, when_closed, exactly-once).
+   Missing: that a close wait outside the finding classes DOES complete by max(acknowledgement, event)
+   (only exercised by the correspondence runs). *)
+From Coq Require Import List Bool Arith NArith.
+From TxVerif Require Import Lib.Bytes Lib.NList Spec.C07 Spec.C08 Model.State Model.StateNotify
+  Proofs.C08Proofs Proofs.C08Refine Proofs.C08Waits Proofs.C08Close.
+Import ListNotations.
+Open Scope N_scope.
+
+(* every listener registered on the object at that moment (global before / after the object appeared,
+   local, minus removed ones) hears exactly the expected calls, in order, with Tor's flags in both cases;
+   nobody else hears anything; no operation of a legal history raises *)
+Theorem C08_notifications_exact : forall rts ops, legal8 ops = true ->
+  exists tr, xrun rts ops = Some tr /\ notifs_exact ops tr = true.
+Proof. exact notifications_exact. Qed.
+Print Assumptions C08_notifications_exact.
+
+Theorem C08_waits_once : forall rts ops tr w,
+  legal8 ops = true -> xrun rts ops = Some tr -> (countN w (concat (map done_ids tr)) <= 1)%nat.
+Proof. exact waits_once_legal. Qed.
+Print Assumptions C08_waits_once.
+
+Theorem C08_done_only_if_requested : forall rts ops tr w,
+  xrun rts ops = Some tr -> In w (concat (map done_ids tr)) -> In w (concat (map req_id ops)).
+Proof. exact done_only_if_requested. Qed.
+Print Assumptions C08_done_only_if_requested.
+
+Theorem C08_close_waits_for_event : forall rts ops, legal8 ops = true -> close_sound_from (xinit rts) ops.
+Proof. exact close_waits_for_event. Qed.
+Print Assumptions C08_close_waits_for_event.
+
+Theorem C08_oracle_no_close_partial : forall rts ops, legal8 ops = true -> no_close ops = true ->
+  exists tr, xrun rts ops = Some tr /\ oracle8 ops tr = true.
+Proof. exact oracle_no_close. Qed.
+Print Assumptions C08_oracle_no_close_partial.
+
+Theorem C08_stream_close_after_gone_refuted :
+  exists ops tr, legal8 ops = true /\ stream_close_after_gone ops = true /\ circuit_close_after_failed ops = false /\
+                 xrun [] ops = Some tr /\ oracle8 ops tr = false.
+Proof. exact stream_close_after_gone_refuted. Qed.
+Print Assumptions C08_stream_close_after_gone_refuted.
+
+Theorem C08_circuit_close_after_failed_refuted :
+  exists ops tr, legal8 ops = true /\ circuit_close_after_failed ops = true /\ stream_close_after_gone ops = false /\
+                 xrun [] ops = Some tr /\ oracle8 ops tr = false.
+Proof. exact circuit_close_after_failed_refuted. Qed.
+Print Assumptions C08_circuit_close_after_failed_refuted.
+
+(* the hypotheses are satisfiable by a non-trivial history: a global listener, a wait for BUILT requested
+   before the circuit is built, a close requested and acknowledged BEFORE Tor reports the circuit closed *)
+Example C08_nonvacuous :
+  let ops := [OAddCL 1; OEv (ECirc 5 CLaunched [] [(0, 0)]); OWhenBuilt 0 7;
+              OEv (ECirc 5 CBuilt [{| h_rid := 2; h_nick := 0 |}] []); OCClose 0 8; OAck;
+              OEv (ECirc 5 CClosed [] [(2, 3)])] in
+  legal8 ops = true /\ stream_close_after_gone ops = false /\ circuit_close_after_failed ops = false /\
+  xrun [] ops = Some [[]; [NCirc 1 0 0 0 []; NCirc 1 1 0 0 []]; [];
+                      [NCirc 1 2 0 2 []; NCirc 1 3 0 0 []; NDone 7 (WOkC 0)]; [NCmd 0 5]; [];
+                      [NDone 8 (WOkC 0); NCirc 1 4 0 0 [(2, 3); (102, 3)]]] /\
+  oracle8 ops [[]; [NCirc 1 0 0 0 []; NCirc 1 1 0 0 []]; [];
+               [NCirc 1 2 0 2 []; NCirc 1 3 0 0 []; NDone 7 (WOkC 0)]; [NCmd 0 5]; [];
+               [NDone 8 (WOkC 0); NCirc 1 4 0 0 [(2, 3); (102, 3)]]] = true.
+Proof. vm_compute. repeat split; reflexivity. Qed.
